@@ -157,7 +157,7 @@ def run(ck):
         base = legal_streams(ck, rng, 60 if T else 12, T)
         # ---- A: faults behind a valid RTP header, modelled exactly -----------------------------
         plans = []
-        budget = 40000 if T else 2600
+        budget = 40000 if T else 1500
         for (cd, clock, cc, seq0, evs, ndata) in base:
             data_pos = [i for i, e in enumerate(evs) if e[0] == 4]
             for vi, victim in enumerate(data_pos):
@@ -193,8 +193,8 @@ def run(ck):
         ck.extra["stream_cases_inside_theorem_guard"] = "%d of %d" % (sum(1 for x in wf if x == "1"), len(wf))
         outs = vlib.run_driver(ck.prop, "C07_gen", [vlib.vs(p) for p in plans])
         cases = [[p, vlib.vparse(o)] for p, o in zip(plans, outs)]
-        ck.stream("payload_faults", cases, "C07_run", "C07", "C07_ok", nontrivial=lambda c: len(c[0][6]) >= 2,
-                  sig=lambda c, e, o: "contain-payload-" + ("h264", "h265", "aac")[c[0][0]], sample=4, timeout=1500)
+        c06.eval_stream(ck, "payload_faults", cases, "C07_run", "C07", "C07_ok", nontrivial=lambda c: len(c[0][6]) >= 2,
+                  sig=lambda c, e, o: "contain-payload-" + ("h264", "h265", "aac")[c[0][0]], sample=4)
         # ---- B: faults in the interleaved frame / RTP header, not modelled: oracle only ---------
         fcases = []
         for (cd, clock, cc, seq0, evs, ndata) in base[: (30 if T else 8)]:
@@ -212,8 +212,8 @@ def run(ck):
                 pos = rng.randrange(1, nprefix)
                 fcases.append([plan, wire[:pos] + [reframe(victim[1], victim[4:4 + n])] + wire[pos:]])
                 kind("frame fault (unknown channel / short or hostile RTP header)")
-        ck.stream("frame_faults", fcases, None, "C07", "C07_ok", nontrivial=lambda c: True, compare=False,
-                  sig=lambda c, e, o: "contain-frame-" + ("h264", "h265", "aac")[c[0][0]], sample=3, timeout=1500)
+        c06.eval_stream(ck, "frame_faults", fcases, None, "C07", "C07_ok", nontrivial=lambda c: True, compare=False,
+                  sig=lambda c, e, o: "contain-frame-" + ("h264", "h265", "aac")[c[0][0]], sample=3)
         # ---- cache classifiers ---------------------------------------------------------------------
         for cd, name in ((H264, "cls264"), (H265, "cls265")):
             pls = []
@@ -222,8 +222,8 @@ def run(ck):
                     continue
                 for e in evs:
                     if e[0] == 4:
-                        pls += bad_payloads(rng, cd, e[4])[: (400 if T else 60)] + [e[4]]
-            pls += [c06.rbytes(rng, rng.randint(0, 12)) for _ in range(2000 if T else 300)]
+                        pls += bad_payloads(rng, cd, e[4])[: (400 if T else 30)] + [e[4]]
+            pls += [c06.rbytes(rng, rng.randint(0, 12)) for _ in range(2000 if T else 150)]
             kind("classifier payload", len(pls))
             ck.stream(name, pls, "C07_" + name, name, "C07_alive", nontrivial=lambda c: len(c) >= 3,
                       sig=lambda c, e, o, name=name: "contain-" + name, sample=2)
@@ -304,14 +304,14 @@ def run(ck):
                 aac = rng.random() < 0.6
                 cc.append([cfg[0], cfg[1], cfg[2], cfg[3], aac, rng.choice(ASCS) if aac else b"", conv_frames(rng.randint(1, 8))])
         kind("FLV converter (metadata x frames)", len(cc))
-        ck.stream("flv_conv", cc, None, "flvconv", "C07_flvconv_ok", nontrivial=lambda c: len(c[6]) >= 2, compare=False,
-                  sig=lambda c, e, o: "contain-flv-conv", sample=2, timeout=1500)
+        c06.eval_stream(ck, "flv_conv", cc, None, "flvconv", "C07_flvconv_ok", nontrivial=lambda c: len(c[6]) >= 2, compare=False,
+                  sig=lambda c, e, o: "contain-flv-conv", sample=2)
         tc = [[0, rng.choice([b"", b"\x67", bytes([0x67, 0x42, 0, 0x1f, 1]), c06.rbytes(rng, 12)]),
                rng.choice([b"", b"\x68\x01", c06.rbytes(rng, 4)]), b"", 1, rng.choice(ASCS + [c06.rbytes(rng, rng.randint(1, 6))]),
                conv_frames(rng.randint(1, 10))] for _ in range(600 if T else 80)]
         kind("TS converter (metadata x frames)", len(tc))
-        ck.stream("ts_conv", tc, None, "tsconv", "C07_tsconv_ok", nontrivial=lambda c: len(c[6]) >= 2, compare=False,
-                  sig=lambda c, e, o: "contain-ts-conv", sample=2, timeout=1500)
+        c06.eval_stream(ck, "ts_conv", tc, None, "tsconv", "C07_tsconv_ok", nontrivial=lambda c: len(c[6]) >= 2, compare=False,
+                  sig=lambda c, e, o: "contain-ts-conv", sample=2)
         # ---- isolation: two streams + two receive loops in one process, faults into one of them -------
         def rtp_frame(ch, payload):
             # RTP timestamps not ahead of the stream clock: a packet from the far future that looks like a
@@ -345,13 +345,13 @@ def run(ck):
         iso = [[1, faults[i:i + per]] for i in range(0, len(faults), per)]
         kind("isolation fault (two streams, two sessions)", len(faults))
         ck.extra["isolation_faults"] = len(faults)
-        ck.stream("isolation", iso, None, "iso", "C07_iso_ok", nontrivial=lambda c: len(c[1]) >= 2, compare=False,
-                  sig=lambda c, e, o: "contain-isolation", sample=1, timeout=1500)
+        c06.eval_stream(ck, "isolation", iso, None, "iso", "C07_iso_ok", nontrivial=lambda c: len(c[1]) >= 2, compare=False,
+                  sig=lambda c, e, o: "contain-isolation", sample=1)
         # known finding, replayed every run: no sender report has pinned the clock yet and a forged one arrives
         forged = reframe(1, bytes([0x80, 200, 0, 6]) + bytes(12) + (2**31).to_bytes(4, "big") + bytes(8))
-        ck.stream("isolation_unpinned", [[0, [forged]]], None, "iso", "C07_iso_ok", nontrivial=lambda c: True, compare=False,
+        c06.eval_stream(ck, "isolation_unpinned", [[0, [forged]]], None, "iso", "C07_iso_ok", nontrivial=lambda c: True, compare=False,
                   sig=lambda c, e, o: "hls-stall-after-clock-rebase" if vlib.vparse(o) == [[0, 1, 0, 1, 1]] else "contain-isolation-unpinned",
-                  sample=1, timeout=300)
+                  sample=1)
         # ---- real viewers of every transport while hostile-but-framed packets are published ----------
         def tr_case(kinds, with_faults):
             ssrc = bytes(rng.randrange(256) for _ in range(4))
@@ -403,11 +403,11 @@ def run(ck):
             return [1, pk, clients, events, 1]
         trc = []
         sets = [[TR.TCP, TR.UDP, TR.WSRTSP, TR.WSP, TR.WSFLV], [TR.UDP, TR.MCAST, TR.TCP], [TR.TCP, TR.WSRTSP, TR.WSP, TR.WSFLV], [TR.UDP, TR.UDP, TR.WSP], [TR.TCP, TR.TCP, TR.WSRTSP]]
-        for i in range(24 if T else 5):
+        for i in range(24 if T else 4):
             trc.append(tr_case(sets[i % len(sets)], with_faults=(i % 2 == 0)))
         kind("transport case (real viewers, size extremes)", len(trc))
-        ck.stream("transports", trc, None, "C07_transports", "C07_tr_ok", nontrivial=lambda c: len(c[2]) >= 2, compare=False,
-                  sig=lambda c, e, o: "contain-transport", sample=1, timeout=1500)
+        c06.eval_stream(ck, "transports", trc, None, "C07_transports", "C07_tr_ok", nontrivial=lambda c: len(c[2]) >= 2, compare=False,
+                  sig=lambda c, e, o: "contain-transport", sample=1)
     except vlib.Broken as b:
         ck.broken.append(b)
     ck.extra["fault_kinds"] = kinds
